@@ -302,3 +302,5 @@ def run(chk):
                     chk.add("C06.unate", key, verdict, d, where=where_of(b))
     chk.floor("C06 entry points", sum(1 for k in ("dyn", "static") for m in ("top_decomposition", "is_pos_unate", "is_neg_unate") if m in env.kinds[k].methods), 6)
     chk.notes["n_range"] = [1, nmax]
+    from ..history import history_rule
+    history_rule(chk, "C06.H", F.load("dbg"))
